@@ -25,7 +25,7 @@ def shape_name(absolute, lens):
     return ("abs" if absolute else "rel") + "_" + ("".join(map(str, lens)) or "none")
 
 
-def harness(absolute, lens, idem=False):
+def harness(absolute, lens, idem=False, canon_only=False):
     n = (1 if absolute else 0) + sum(lens) + max(len(lens) - 1, 0)
     L = ["        let mut buf = [0u8; %d];" % max(n, 1)]
     offs = []
@@ -64,7 +64,10 @@ def harness(absolute, lens, idem=False):
     L.append("        kani::cover!(true, \"reach\");")
     if any(l == 2 for l in lens):
         L.append("        kani::cover!(lead > 0 || depth < %d, \"reach-dots\");" % len([l for l in lens if l > 0]))
-    L.append("        let out = NormalizedPathBuf::new(PathBuf::from(s));")
+    if canon_only:
+        L.append("        let out = cheap_canonicalize_path(Path::new(s));")
+    else:
+        L.append("        let out = NormalizedPathBuf::new(PathBuf::from(s));")
     L.append("        let ob = out.as_os_str().as_bytes();")
     L.append("        assert!(ob.len() == el, \"canon-len: the normal form has the length of the lexically resolved path\");")
     L.append("        let mut ok = true; let mut j = 0; while j < el { if j < ob.len() && ob[j] != exp[j] { ok = false; } j += 1; }")
@@ -76,8 +79,8 @@ def harness(absolute, lens, idem=False):
         L.append("        std::mem::forget(again);")
         asserts["idempotent"] = ""
     L.append("        std::mem::forget(out);")
-    nm = shape_name(absolute, lens) + ("_idem" if idem else "")
-    return Harness(nm, "\n".join(L), "NormalizedPathBuf::new/%s%s" % (shape_name(absolute, lens), "/idem" if idem else ""),
+    nm = ("cc_" if canon_only else "") + shape_name(absolute, lens) + ("_idem" if idem else "")
+    return Harness(nm, "\n".join(L), "%s/%s%s" % ("cheap_canonicalize_path" if canon_only else "NormalizedPathBuf::new", shape_name(absolute, lens), "/idem" if idem else ""),
                    unwind=n + 4, fmt_stub=True, asserts=asserts,
                    covers=["reach"] + (["reach-dots"] if any(l == 2 for l in lens) else []),
                    meta=dict(shape="%s path, component byte lengths %s (%d bytes)" % ("absolute" if absolute else "relative", lens, n),
@@ -119,6 +122,7 @@ def run(tier, seed, only=None):
         base, idem = shapes(tier, seed)
         for a, l in base:
             kr.add("crates/erg_common/pathutil.rs", harness(a, l), PRELUDE)
+            kr.add("crates/erg_common/pathutil.rs", harness(a, l, canon_only=True), PRELUDE)
         for a, l in idem:
             kr.add("crates/erg_common/pathutil.rs", harness(a, l, idem=True), PRELUDE)
         if only:
